@@ -181,6 +181,46 @@ func checkC17(p *Prog, r *Result, tier string) {
 			bad+": the context under which rollbacks and deferred clean-ups run expires with the caller's deadline (or on a cancel that nobody can see): a rollback that starts because the caller ran out of time is cut short at once")
 	}
 
+	// RBC: the rollback (and the then-step of the no-rollback form) gets a FULL time budget of its own: its context is
+	// context.WithTimeout(<detached context>, ttl) with the transaction's ttl parameter — not a deadline taken over from the
+	// transaction's or the caller's context (a rollback that starts because time ran out would start on a dead context)
+	{
+		ttl := T.paramObj(4)
+		why := ""
+		n := 0
+		var visit func(fn *FuncNode)
+		visit = func(fn *FuncNode) {
+			fn.inspectBody(func(x ast.Node) bool {
+				c, ok := x.(*ast.CallExpr)
+				if !ok || fn.Callee(c) == nil || fn.Callee(c).Pkg() == nil || fn.Callee(c).Pkg().Path() != "context" {
+					if ok && fn.Callee(c) != nil && fn.Callee(c).Name() == "Deadline" {
+						why = "a context's Deadline() is read at " + p.pos(c) + ": a step's or the rollback's budget is tied to another context's deadline"
+					}
+					return true
+				}
+				switch fn.Callee(c).Name() {
+				case "WithTimeout":
+					n++
+					if len(c.Args) != 2 || fn.objOf(c.Args[1]) != ttl {
+						why = "context.WithTimeout at " + p.pos(c) + " does not use the transaction's ttl"
+					}
+				case "WithDeadline", "WithDeadlineCause":
+					why = "context.WithDeadline at " + p.pos(c) + ": the derived context shares a deadline with another one instead of getting ttl of its own"
+				}
+				return true
+			})
+			for _, l := range fn.Lits {
+				visit(l)
+			}
+		}
+		visit(T)
+		if n < 2 && why == "" {
+			why = "fewer than two context.WithTimeout(…, ttl) derivations in Txn (steps and rollback)"
+		}
+		r.min("RBC", 1)
+		r.check2(why, "RBC", "utils.Txn / every derived context gets the transaction's ttl as a budget of its own", p.pos(T.Decl), fmt.Sprintf("%d × context.WithTimeout(…, ttl); no WithDeadline, no Deadline() read", n))
+	}
+
 	inFamily := func(f *ssa.Function) bool {
 		for g := f; g != nil; g = g.Parent() {
 			if g == sT || g == sP {
